@@ -314,6 +314,19 @@ def scan(trees: Dict[str, ast.Module]):
                         findings.append((rel, n.lineno, f'{where}::shared({r0.name})→self.{t.attr}',
                                          f'`self.{t.attr}` {how} (`{r0.name}`, {r0.label} line {r0.line}) and is mutated in place at {mwhere} line {mline}: '
                                          f'all instances share that state and it survives from one run to the next in the same interpreter'))
+    # two attributes bound to ONE mutable object by a chained assignment (`self.a = self.b = []`): what is appended to one list is in the other
+    for rel, tree in trees.items():
+        for cls, fn in _functions(tree):
+            for n in ast.walk(fn):
+                if isinstance(n, ast.Assign) and len(n.targets) >= 2 and is_mutable_value(n.value):
+                    attrs = [t.attr for t in n.targets if isinstance(t, ast.Attribute) and isinstance(t.value, ast.Name) and t.value.id == 'self']
+                    sites += 1
+                    if len(attrs) >= 2:
+                        where = f'{rel}::{cls}.{fn.name}' if cls else f'{rel}::{fn.name}'
+                        findings.append((rel, n.lineno, f'{where}::one-object-two-attributes({",".join(sorted(attrs))})',
+                                         f'`{" = ".join("self." + a for a in attrs)} = {ast.unparse(n.value)}` binds {len(attrs)} attributes to ONE '
+                                         f'{type(n.value).__name__.lower()} object: every element added through one name is seen through the other '
+                                         f'(granted put and get reservations are counted in each other\'s admission test)'))
     return findings, sites
 
 
